@@ -246,6 +246,28 @@ def plumbing(program, rep):
                         getattr(program, 'records', {}) \
                         and not x.value.keywords:
                     args += list(x.value.args)      # a private record
+                elif isinstance(x, ast.Starred) and isinstance(
+                        x.value, ast.Call) and isinstance(
+                            x.value.func, ast.Name) and len(
+                                x.value.args) == 1:
+                    # *_getter(ex) with _getter = operator.attrgetter('a',
+                    # 'b', 'c') at module level
+                    defs = [s_.value for s_ in lp.module.tree.body
+                            if isinstance(s_, ast.Assign) and any(
+                                isinstance(t_, ast.Name)
+                                and t_.id == x.value.func.id
+                                for t_ in s_.targets)]
+                    if len(defs) == 1 and isinstance(defs[0], ast.Call) \
+                            and (dotted(defs[0].func) or '').split('.')[-1] \
+                            .lstrip('_') == 'attrgetter' and all(
+                                isinstance(a_, ast.Constant) and isinstance(
+                                    a_.value, str) and a_.value.isidentifier()
+                                for a_ in defs[0].args):
+                        args += [ast.Attribute(x.value.args[0], a_.value,
+                                               ast.Load())
+                                 for a_ in defs[0].args]
+                    else:
+                        args.append(x)
                 else:
                     args.append(x)
             a = [norm(x) for x in args]
